@@ -204,11 +204,14 @@ void AutomationMgr::clearSlot(int slot_id)
     auto &s = slots[slot_id];
     s.active = false;
     s.used   = false;
-    if(s.learning)
+    //only a slot waiting for MIDI learn (learning > 0, -1 otherwise) has a
+    //place in the learn queue that the slots behind it move up to
+    if(s.learning > 0) {
         learn_queue_len--;
-    for(int i=0; i<nslots; ++i)
-        if(slots[i].learning > s.learning)
-            slots[i].learning--;
+        for(int i=0; i<nslots; ++i)
+            if(slots[i].learning > s.learning)
+                slots[i].learning--;
+    }
     s.learning = -1;
     s.midi_cc  = -1;
     s.midi_nrpn  = -1;
